@@ -11,6 +11,7 @@ import Banyan.Lemmas.C04Atomic
 import Banyan.Lemmas.C04RecSpec
 import Banyan.Lemmas.C04AccBridge
 import Banyan.Lemmas.C04Pub
+import Banyan.Lemmas.C04Trunc
 
 namespace Banyan.C04
 open Banyan.FS
@@ -165,6 +166,17 @@ theorem crash_recovers_prefix_as_written (e : Nat) (os : List Op) (o : Op) (k : 
       ((opPre (histTbl { epoch := e } os) o).length ≤ k →
         ∀ b ∈ coveredBy (opSteps (histTbl { epoch := e } os) o).2, b ∈ servedBatches r) :=
   crash_recovers_batches false e os o k t hc
+
+/-- Two crashes: after the repaired startup no temporary file is left, so the next publication of a manifest —
+    of any epoch, in particular the one whose publication the crash interrupted — starts from the state
+    `WriteAtomic` assumes (`Settled.tmpAbsent`).  (The function as written leaves `<epoch>.snp.tmp`:
+    `recoverLegacy_leaves_tmp_manifest`; then only `O_TRUNC` protects the republication: `openWrite_trunc`,
+    `openWrite_keep_manifest_torn`.) -/
+theorem crash_recovers_no_tmp (e : Nat) (os : List Op) (o : Op) (k : Nat) (t : Tree)
+    (hc : t = crashKill (cutState e os o k) ∨ crashPower (cutState e os o k) t) :
+    ∃ r, recover t = .ok r ∧ ∀ n, exists_ r.tree [.tmp n] = false := by
+  obtain ⟨r, hr, _, ⟨live, hl, _⟩, _⟩ := crash_recovers_prefix e os o k t hc
+  exact ⟨r, hr, no_tmp_after_recover hl⟩
 
 /-- The same with the publication recognised in the system calls themselves: once the `k` system calls contain
     `rename(<epoch>.snp.tmp, <epoch>.snp)` followed by `fsync(root)` (`pubDone`), every batch covered by the
